@@ -702,6 +702,33 @@ func TestC20(t *testing.T) {
 		}
 	}), c20GridProp)
 
+	// "a deleted peer stops as in C10": DeletePeer (also racing Close or another
+	// DeletePeer while a callback dawdles) at every park point, judged by the
+	// C10 post-conditions
+	hx.Enum(r, t, "deleted_peer_stops", 0, func(yield func(c10Case) bool) {
+		// the racing cases depend on the scheduler: the enumeration is repeated
+		for rep := 0; rep < 4; rep++ {
+			for _, park := range c10Parks {
+				for _, late := range []bool{false, true} {
+					if !yield(c10Case{Peers: []c10Peer{{Park: park}}, API: "del", Late: late}) {
+						return
+					}
+				}
+				for _, spin := range []string{"open", "est", "caps"} {
+					for _, conc := range [][]c10Conc{
+						{{Kind: "del", Peer: 0}},
+						{{Kind: "open", Peer: 0, Dir: "in"}, {Kind: "open", Peer: 0, Dir: "out"}, {Kind: "del", Peer: 0}},
+						{{Kind: "keepalive", Peer: 0, Dir: "in"}, {Kind: "keepalive", Peer: 0, Dir: "out"}, {Kind: "del", Peer: 0}},
+					} {
+						if !yield(c10Case{Peers: []c10Peer{{Park: park, SpinCb: spin, SpinLong: true}}, API: "close", Conc: conc}) {
+							return
+						}
+					}
+				}
+			}
+		}
+	}, c10Prop(t, r, "deleted_peer_stops"))
+
 	hx.Rapid(r, t, "sequential_histories", r.N(2500, 25000), genC20Hist, c20HistProp(t, r))
 	hx.Rapid(r, t, "concurrent_histories", r.N(1500, 20000), genC20Conc, c20ConcProp(t, r))
 }
